@@ -1,9 +1,9 @@
-/-! C10 — `TreeScanningGateRemovalPass.get_tree_circs` AS IT IS, on the cycle grid: this model keeps
-the cycle-index arithmetic (`idx_shift = orig_num_cycles − circ.num_cycles`, `new_cycle = cycle −
-idx_shift`) and `Circuit.pop`'s behaviour (Python-style negative cycle indices, IndexError for an
-out-of-range or idle point, removal of a cycle that becomes empty), so it reproduces the defect of
-the right-to-left scan (known finding): the shift is only meaningful when the emptied cycles lie
-before the operation. -/
+/-! C10 — `TreeScanningGateRemovalPass.get_tree_circs` AS IT IS (after fix 513afaa), on the cycle
+grid: this model keeps the cycle-index arithmetic (`idx_shift = orig_num_cycles − circ.num_cycles`,
+`new_cycle = cycle − idx_shift if start_from_left else cycle`) and `Circuit.pop`'s behaviour
+(Python-style negative cycle indices, IndexError for an out-of-range or idle point, removal of a
+cycle that becomes empty). `Proofs/AcceptGrid.lean` proves that in both scan directions every pop
+removes exactly the operation the iteration is looking at and never raises. -/
 namespace BqVerif.AcceptGrid
 
 structure GOp where
@@ -36,30 +36,45 @@ structure ChunkOp where
   qudit : Nat
   deriving Repr
 
-/-- The loop of `get_tree_circs` before sorting; `none` as soon as one `pop` raises. -/
-def treeCircs (orig : Nat) (g : Grid) : List ChunkOp → Option (List Grid)
-  | [] => some [g]
-  | chunk => chunk.foldl (fun all co =>
-      match all with
-      | none => none
-      | some all =>
-        all.foldl (fun acc circ =>
-          match acc with
-          | none => none
-          | some acc =>
-            let shift : Int := (orig : Int) - (circ.length : Int)
-            match pop circ ((co.cycle : Int) - shift) co.qudit with
-            | none => none
-            | some w => some (acc ++ [w, circ])) (some [])) (some [g])
+/-- `work_copy.pop((new_cycle, op.location[0]))` with the code's `new_cycle`. -/
+def popShift (left : Bool) (orig : Nat) (circ : Grid) (co : ChunkOp) : Option Grid :=
+  pop circ ((co.cycle : Int) - (if left then (orig : Int) - (circ.length : Int) else 0)) co.qudit
+
+/-- Body of the inner loop over `all_circs`: `new_circs.append(work_copy); new_circs.append(circ)`;
+`none` as soon as one `pop` raises. -/
+def stepOne (left : Bool) (orig : Nat) (co : ChunkOp) (acc : Option (List Grid)) (circ : Grid) :
+    Option (List Grid) :=
+  match acc with
+  | none => none
+  | some acc =>
+    match popShift left orig circ co with
+    | none => none
+    | some w => some (acc ++ [w, circ])
+
+def stepAll (left : Bool) (orig : Nat) (co : ChunkOp) (all : List Grid) : Option (List Grid) :=
+  all.foldl (stepOne left orig co) (some [])
+
+/-- The loop of `get_tree_circs` before sorting. -/
+def treeCircs (left : Bool) (orig : Nat) (g : Grid) (chunk : List ChunkOp) : Option (List Grid) :=
+  chunk.foldl (fun all co => all.bind (stepAll left orig co)) (some [g])
 
 def insertBySize (c : Grid) : List Grid → List Grid
   | [] => [c]
   | d :: t => if numOps d < numOps c then d :: insertBySize c t else c :: d :: t
 
 /-- `get_tree_circs`: stable sort by number of operations, last one dropped. -/
-def getTreeCircs (orig : Nat) (g : Grid) (chunk : List ChunkOp) : Option (List Grid) :=
-  (treeCircs orig g chunk).map fun l => (l.foldr insertBySize []).dropLast
+def getTreeCircs (left : Bool) (orig : Nat) (g : Grid) (chunk : List ChunkOp) :
+    Option (List Grid) :=
+  (treeCircs left orig g chunk).map fun l => (l.foldr insertBySize []).dropLast
 
 def tags (g : Grid) : List Nat := (g.flatMap id).map (·.tag)
+
+/-- The circuit `g` with the operations tagged in `D` deleted (emptied cycles disappear). -/
+def del (D : List Nat) (g : Grid) : Grid :=
+  (g.map fun cy => cy.filter fun x => !D.contains x.tag).filter fun cy => !cy.isEmpty
+
+/-- The deletion sets `get_tree_circs` is meant to produce, in the code's order. -/
+def subsetsCode (D0 : List Nat) (chunkTags : List Nat) : List (List Nat) :=
+  chunkTags.foldl (fun ds t => ds.flatMap fun D => [t :: D, D]) [D0]
 
 end BqVerif.AcceptGrid
